@@ -464,6 +464,11 @@ class ModulePrinter(ExpressionPrinter):
                     self.printer.delimiter('(')
                     self.visit_withitem(item)
                     self.printer.delimiter(')')
+                elif len(node.items) == 1 and isinstance(item.context_expr, ast.Tuple) and item.optional_vars is None:
+                    # A sole parenthesized tuple would be parsed as parenthesized with-items
+                    self.printer.delimiter('(')
+                    self.visit_withitem(item)
+                    self.printer.delimiter(')')
                 else:
                     self.visit_withitem(item)
         else:
